@@ -1142,7 +1142,7 @@ def orth_rule(ctx):
     params = [a for a, _ in ap.params()]
     xin, rows = params[0], params[1]
     # the carried tensor starts as the inputs
-    pre = body_expansion([st for st in ap.node.body[: ap.node.body.index(loop)]]) or {}
+    pre = body_expansion([st for st in ap.node.body[: ap.node.body.index(loop)]], ap.node) or {}
     if norm_text(pre.get(carried, ast.Name(id=carried, ctx=ast.Load()))) != xin:
         res.fail(Finding("ORTH-REV", ap.module, ap.qualname, loop, "the running outputs must start as the inputs", construct="initial value of the reflections"))
     # rows paired with their own squared norm
@@ -1165,7 +1165,7 @@ def orth_rule(ctx):
     else:
         res.undecide("_apply_transforms", "loop is not over the rows (optionally zipped with their squared norms)")
         return res
-    env = body_expansion(loop.body)
+    env = body_expansion(loop.body, ap.node)
     if env is None or carried not in env:
         res.undecide("_apply_transforms", "the loop body does not rebind `%s` on a single path" % carried)
         return res
